@@ -108,6 +108,16 @@ CHECKS['C05'] = dict(
          'document shapes are a finite family.',
     design='DESIGN.md section 2 C05')
 
+CHECKS['C14'] = dict(
+    technique='bounded symbolic execution (z3, own executor): crash / I/O-error position among the I/O calls of an update is a solver variable over an in-memory file-system model',
+    text='For status.txt, status_details.json, output.txt/output.json, flowir_instance.yaml and manifest.yaml the real update code runs on an '
+         'in-memory file system; a crash (with a symbolic durable prefix of unflushed data) or an I/O error is injected at every I/O call, '
+         'after 0-2 preceding updates, and the surviving file must equal the complete previous or new version, load with the real loader and '
+         'return exactly the values last written (adversarial error descriptions). Exhaustive over fault positions within the model.',
+    note='file-system model (durable truncation on open(w), atomic rename, prefix-durable writes) is part of the claim; payload characters come '
+         'from a finite adversarial set because the unicode_escape codec is C code.',
+    design='DESIGN.md section 2 C14')
+
 NOT_APPLICABLE = {
     'C07': 'round trip through the real file system, PyYAML (C) and Experiment construction: nothing on the path can be made symbolic; the technique would degenerate to example testing',
     'C15': 'quantifies over processes with different hash seeds / directory listing orders, which are not values inside one symbolic execution',
